@@ -20,3 +20,25 @@ package mutable
 //@     requires arg0 == actR && arg1 == snapR
 //@   call (*Record).MergeRecordDescend
 //@     requires arg0 == actR && arg1 == snapR
+
+// Flush-time split at the series' last flushed time: a row goes to the ORDERED part only if it is strictly
+// newer than `time` (otherwise two ordered files would both hold that timestamp and reads return it twice),
+// and to the out-of-order part only if it is not newer.
+//@ func SplitRecordByTime
+//@   requires rec != nil
+//@   ghost t0 int64 = 0
+//@   ghost tl int64 = 0
+//@   call .Times
+//@     assume len(ret0) > 0
+//@     set t0 = ret0[0]
+//@     set tl = ret0[len(ret0)-1]
+//@     frame nothing
+//@   call .AppendColVal on unOrderCol
+//@     requires arg2 == 0 && arg3 == n
+//@   call .AppendColVal on orderCol
+//@     requires arg2 == n && arg3 == col.Len
+//@   ensures [whole_ordered] result0 == rec && result1 == nil ==> t0 > time
+//@   ensures [whole_unordered] result0 == nil ==> result1 == rec && tl <= time
+//@ func SplitRecordByTime$1
+//@   requires 0 <= i && i < len(times)
+//@   ensures [split_point] result == (times[i] > time)
